@@ -88,7 +88,7 @@ func (a *acc) out(route, class string, s *spec) {
 
 func (a *acc) fail(in caseIn, s *spec, kind, stage, cause, what, observed, expected string) {
 	sig := kind + ":" + stage + ":" + cause
-	if s.leafOf().class == "named-key-map" && strings.HasPrefix(cause, "assert(named-basic") {
+	if s != nil && s.leafOf().class == "named-key-map" && strings.HasPrefix(cause, "assert(named-basic") {
 		sig += "[map-key]" // same message as for a named value, but a different site (MapConverter.From asserts string keys)
 	}
 	a.ord++
@@ -786,6 +786,9 @@ func Worker(args []string) {
 	}
 	a := newAcc()
 	w := bufio.NewWriterSize(os.Stderr, 64)
+	if i == 0 {
+		a.routeStructRefill() // the struct-refill histories run once, in the first worker
+	}
 	for k := i; k < len(us); k += n {
 		if skip[k] {
 			continue
@@ -956,7 +959,7 @@ func Check(r *ev.Run, replay string) {
 	r.Set("misfit_cases", len(us)-nVals)
 	r.Set("method_holder_types", len(holders))
 	r.Set("workers", n)
-	r.Set("rule", fmt.Sprintf("every Go type built from %d leaf types (14 basic kinds, 14 named twins, time.Time, time.Duration, []byte, error, any, 4 named composites, map[NString]int) under <= %d constructors from {pointer, slice, array[2], map[string]T, struct{F T}, interface holding T} = %d types; every value from {zero, nil where legal, min, max, ordinary, empty} propagated through each constructor = %d (type, value) cases; each through the routes global (+typed back), field-read, field-write x {value from a Go field, script-built object}, method Echo(T) T x {same two sources} for the %d statically instantiated holder types; array refill (a full list, then a shorter list into a fresh holder of the same array type; nested arrays with a short second row: rejected or exactly [w, zero]); plus every type with <= %d constructors (%d) x %d possibly ill-fitting script objects written to a field / passed to a method (no-panic only). distinct = distinct (route, outcome class, constructor chain, leaf class) tuples",
+	r.Set("rule", fmt.Sprintf("every Go type built from %d leaf types (14 basic kinds, 14 named twins, time.Time, time.Duration, []byte, error, any, 4 named composites, map[NString]int) under <= %d constructors from {pointer, slice, array[2], map[string]T, struct{F T}, interface holding T} = %d types; every value from {zero, nil where legal, min, max, ordinary, empty} propagated through each constructor = %d (type, value) cases; each through the routes global (+typed back), field-read, field-write x {value from a Go field, script-built object}, method Echo(T) T x {same two sources} for the %d statically instantiated holder types; array refill (a full list, then a shorter list into a fresh holder of the same array type; nested arrays with a short second row: rejected or exactly [w, zero]); struct refill (a map with an ill-typed field, its keys visited in each of the 6 orders - the check is built with the map seam -, then a one-field map into the same struct type, also as slice elements: rejected or exactly that field); plus every type with <= %d constructors (%d) x %d possibly ill-fitting script objects written to a field / passed to a method (no-panic only). distinct = distinct (route, outcome class, constructor chain, leaf class) tuples",
 		len(leaves()), vd, nSpecs, nVals, len(holders), md, nMis, len(misfits)))
 	r.Assumptions = []string{
 		"composite values are one wrapping per element value (slice/array [v, zero], map {k: v}, struct {F: v}, &v, boxed v) plus nil/empty; not all combinations of element values",
